@@ -1581,6 +1581,15 @@ func sendMessages(ctx context.Context, conn net.Conn,
 		return firstMsg, errors.Wrap(ErrTimeout, "handshake")
 	}
 
+	select {
+	case <-interrupt:
+		// The connection is being shut down. The handshake channel is also written to release
+		// this wait, so it doesn't mean the service accepted the connection and nothing can be
+		// written to it. Keep the message for the next connection.
+		return firstMsg, nil
+	default:
+	}
+
 	if firstMsg != nil {
 		logger.InfoWithFields(ctx, []logger.Field{
 			logger.String("message", NameForMessageType(firstMsg.msg.Payload.Type())),
